@@ -119,9 +119,13 @@ func vrtHarness_C03_handle() {
 		r.Answer = vrtSection(n, []int{0, 1}, "a.")
 		r.Ns = vrtSection(1, []int{2}, "a.")
 		r.Extra = vrtSection(1, []int{0}, "a.")
-		if vrtChoice(2) == 1 { // upstream sent its own OPT with options (padding, cookie, ecs ...)
+		switch vrtChoice(3) { // upstream sent its own OPT with options (padding, cookie, ecs ...)
+		case 1: // ... as the last additional record
 			upstreamOpt = vrtOptWith(1 + vrtChoice(2))
 			r.Extra = append(r.Extra, upstreamOpt)
+		case 2: // ... in front of other additional records
+			upstreamOpt = vrtOptWith(1)
+			r.Extra = append([]dns.RR{upstreamOpt}, r.Extra...)
 		}
 		return r
 	}
